@@ -7,6 +7,7 @@ package mimefam
 
 import (
 	"bytes"
+	"context"
 	"embed"
 	ht "html/template"
 	"crypto/sha256"
@@ -1556,7 +1557,18 @@ func (rn *Runner) Run() {
 			}
 			sendmailMu.Lock()
 			_ = os.Remove(spool)
-			guard(func() { oerr = built.Msg.WriteToSendmailWithCommand(script) })
+			// (WriteToSendmailWithCommand allows the binary five seconds: on a loaded machine the stand-in may need longer)
+			sctx, scancel := context.WithTimeout(context.Background(), 2*time.Minute)
+			if k%2 == 0 {
+				guard(func() { oerr = built.Msg.WriteToSendmailWithContext(sctx, script) })
+			} else {
+				guard(func() { oerr = built.Msg.WriteToSendmailWithCommand(script) })
+				if oerr != nil && strings.Contains(oerr.Error(), "signal: killed") { // the five seconds ran out: again, without the limit
+					out.Reset()
+					guard(func() { oerr = built.Msg.WriteToSendmailWithContext(sctx, script) })
+				}
+			}
+			scancel()
 			if oerr == nil && pan == "" {
 				var b []byte
 				b, oerr = os.ReadFile(spool)
